@@ -5,7 +5,8 @@ cd "$(dirname "${BASH_SOURCE[0]}")/.."
 . bin/env.sh
 bin/build.sh tool
 bin/build.sh seq
-for b in mcgen mcx proc; do
+for b in mcgen mcx proc racerun; do
   if grep -q "^  $b)" bin/build.sh; then bin/build.sh $b; fi
 done
+"$VERIF_BUILD/mcx" -selftest
 echo setup ok
